@@ -20,7 +20,7 @@ RULE = ('codec: all 4x4 targets x 7 functions x last-packet flag x payload lengt
 ASSUMPTIONS = ['TCP framing: u16 little-endian length of the CPX wire data, then the wire data (2 header bytes + payload)',
                'UART framing: 0xFF, length, wire data, XOR checksum; 0xFF 0x00 is the clear-to-send acknowledgement',
                'receiver queues exist before packets arrive (the router drops packets for functions nobody asked for yet)']
-REQUIRED = ['mon.router_streams_stalling_for_seconds_inside_a_frame', 'mon.router_transactions_on_a_function_with_packets_waiting', 'mon.codec', 'mon.bad_version', 'mon.short_streams_all_cuts', 'mon.long_streams', 'mon.router_packets',
+REQUIRED = ['mon.tcp_links_with_two_threads_sending_at_the_same_time', 'mon.router_streams_stalling_for_seconds_inside_a_frame', 'mon.router_transactions_on_a_function_with_packets_waiting', 'mon.codec', 'mon.bad_version', 'mon.short_streams_all_cuts', 'mon.long_streams', 'mon.router_packets',
             'mon.tcp_crtp_up', 'mon.tcp_crtp_down', 'mon.serial_crtp_up', 'mon.serial_crtp_down', 'mon.crtp_packet_objects_sent_again', 'mon.uart_cpx_packets_of_every_length', 'mon.frames_of_32k_and_more',
             'mon.router_streams_with_rejected_frames']
 EXHAUSTIVE = {'quick': False, 'thorough': False}
@@ -289,11 +289,19 @@ class LiveSocket:
                 self.q.put(((pauses or {}).get(pos, 0.0), data[pos:c]))
                 pos = c
 
+    def _yield(self):
+        # a send on a real socket is a system call: other threads run meanwhile
+        from vf import detsched as ds
+        if ds.CUR is not None and ds.CUR.managed():
+            ds.CUR.point(force=True)
+
     def send(self, data):
+        self._yield()
         self.sent += bytes(data)
         return len(data)
 
     def sendall(self, data):
+        self._yield()
         self.sent += bytes(data)
 
     def recv(self, n):
@@ -470,6 +478,8 @@ def run_tcp(desc, ctx):
     up = crtp_cases(rnd)
     down = crtp_cases(rnd)
     ob = {'rx': [], 'err': None, 'sent': b''}
+    MARK = b'\xA5\x5A\xC3\x3C'
+    second = [(0x5C, MARK + bytes([i & 0xFF, (i * 7) & 0xFF][:1 + i % 2])) for i in range(40)] if desc['seed'] % 2 == 0 else []
 
     def fn(sch):
         sock = LiveSocket()
@@ -479,7 +489,19 @@ def run_tcp(desc, ctx):
             with contextlib.redirect_stdout(io.StringIO()):
                 d = TcpDriver()
                 d.connect('tcp://192.168.4.1:5000', None, lambda m: ob.__setitem__('err', m))
+                t2 = None
+                if second:
+                    # another application thread sends on the same link at the same time
+                    import threading
+
+                    def other_sender():
+                        for (h2, d2) in second:
+                            d.send_packet(CRTPPacket(h2, list(d2)))
+                    t2 = threading.Thread(target=other_sender)
+                    t2.start()
                 up[:] = _send_up(d, list(up), rnd, ob, CRTPPacket)
+                if t2 is not None:
+                    t2.join()
                 s = b''
                 for (h, data) in down:
                     w = wire(1, 3, 3, True, bytes([h]) + data)
@@ -512,6 +534,15 @@ def run_tcp(desc, ctx):
         frames.append(b[2:2 + n])
         b = b[2 + n:]
     crtp = [f for f in frames if len(f) >= 2 and f[1] & 0x3F == 3]
+    if second:
+        ctx.count('mon.tcp_links_with_two_threads_sending_at_the_same_time')
+        theirs = [f for f in crtp if bytes(f[3:3 + len(MARK)]) == MARK]
+        crtp = [f for f in crtp if bytes(f[3:3 + len(MARK)]) != MARK]
+        want2 = [wire(3, 1, 3, False, bytes([h2 | 0x0C]) + d2) for (h2, d2) in second]
+        if theirs != want2 or b:
+            ctx.violate('tcp:uplink-stream-garbled-with-two-threads-sending',
+                        {'frames_of_the_second_thread': len(theirs), 'wanted': len(want2), 'bytes_left_over': len(b),
+                         'frames_of_other_functions': len(frames) - len(crtp) - len(theirs)})
     ctx.count('mon.tcp_crtp_up', len(crtp))
     ctx.count('mon.crtp_packet_objects_sent_again', ob.get('resent', 0))
     if ob.get('mutated'):
